@@ -288,11 +288,19 @@ let eval_line (fields : string list) : (string * string) list =
      if List.length bs >= 4 then nontrivial ();
      if calls <> "-" && int_of_n mcalls <> int_of_string calls then
        fail "corr.listvar.calls" (Printf.sprintf "model=%d" (int_of_n mcalls));
-     ignore mres; ignore reserved;
+     (* C06: the largest single request against what is physically present (one 4-byte offset per
+        item) and against the model's reservation counter; 24 = size_of the probe item *)
+     let largest = int_of_string reserved in
+     let budget u = 8 * 24 * (u + 1) + 4096 in
+     if largest > budget (List.length bs / 4) then
+       fail "oracle.C06" (Printf.sprintf "largest single request %d bytes for %d input bytes (bound %d): space reserved for items that are not present"
+                            largest (List.length bs) (budget (List.length bs / 4)));
+     if largest > budget (int_of_n mres) then
+       fail "corr.alloc" (Printf.sprintf "largest request %d > budget %d of the model's reservation (%d items)" largest (budget (int_of_n mres)) (int_of_n mres));
      if res = "panic" then fail "oracle.C05" "decode_list_of_variable_length_items panicked";
      (* C16 evaluated on the crate's answers *)
      (match Tiling.announced bs, mx with
-      | Some cnt, Some mxv when cnt > int_of_n mxv ->
+      | Some cnt, Some mxv when M.N.ltb mxv (n_of_int cnt) ->
         if res <> "err" then fail "oracle.C16" "announced count exceeds the limit but decoding did not fail";
         if calls <> "-" && calls <> "0" then fail "oracle.C16" "items were decoded although the limit was exceeded"
       | _ -> ());
@@ -303,7 +311,7 @@ let eval_line (fields : string list) : (string * string) list =
       | _ -> ())
    | ["lvsame"; _ts; _hex; maxl; res_lim; res_unlim; cnt] ->
      (* limit >= announced count: same as unlimited *)
-     if int_of_string cnt <= int_of_string maxl && res_lim <> res_unlim then
+     if M.N.leb (n_of_dec cnt) (n_of_dec maxl) && res_lim <> res_unlim then
        fail "oracle.C16" "limited decoding differs from unlimited decoding although count <= limit"
    | ["decalloc"; ts; hex; cls; peak; largest; slot] ->
      let t = ty_of_sexp (parse_sexp ts) in
